@@ -181,6 +181,214 @@ def _decide_path(run, key, zm, cap, path, claims, case, finding):
     return "unknown"
 
 
+# ------------------------------------------------------------------------------------------
+# a LINEARISED model (linear=False) with log-variables whose steady state is a balanced-growth path.  The model is exactly
+# log-linear, so its first-order solution is exact and the equations can be stated in logs (the oracle below), where every output
+# cell EXP(affine in LOG(input), shocks) normalises to an affine term.
+# ------------------------------------------------------------------------------------------
+GROWTH_SRC = """
+!transition-variables
+    a, y, c
+!log-variables
+    a, y, c
+!transition-shocks
+    ea, ey
+!parameters
+    g, rho, psi, s
+!transition-equations
+    a = a[-1] * g * exp(ea);
+    y/a = s^(1-rho-psi) * (y[-1]/a[-1])^rho * (y[+1]/a[+1])^psi * exp(ey);
+    c = y^0.6 * (c[-1]*g)^0.4;
+"""
+GROWTH_PAR = dict(g=1.02, rho=0.5, psi=0.3, s=1.5)
+GROWTH_VARS, GROWTH_SHOCKS = ("a", "y", "c"), ("ea", "ey")
+
+
+def _growth_model(ir):
+    import contextlib, io
+    p = GROWTH_PAR
+    with contextlib.redirect_stdout(io.StringIO()):
+        m = ir.Simultaneous.from_string(GROWTH_SRC, linear=False, flat=False)
+        m.assign(**p)
+        m.assign(a=(2.0, p["g"]), y=(2.0 * p["s"], p["g"]), c=(2.0 * p["s"], p["g"]))
+        m.solve()
+    return m
+
+
+def _growth_steady(name, k):
+    """balanced-growth path, k periods after the first simulated period (closed form: the oracle's own statement)"""
+    p = GROWTH_PAR
+    lvl = 2.0 * p["g"] if name == "a" else 2.0 * p["s"] * p["g"]
+    return lvl * p["g"] ** k
+
+
+def _growth_db(ir, nsim, ant_cells, deviation, values=None):
+    start = ir.qq(2020, 1)
+    span = start >> (start + nsim - 1)
+
+    def val(n, k, default):
+        if values is not None and f"{n}__{lab(k)}" in values:
+            return float(values[f"{n}__{lab(k)}"])
+        return default
+    db = ir.Databox()
+    for i, n in enumerate(GROWTH_VARS):
+        base = (1.0 + 0.0625 * (i + 1)) * (1.0 if deviation else _growth_steady(n, -1))
+        db[n] = ir.Series(start=start - 1, values=(val(n, -1, base),))
+    for i, n in enumerate(GROWTH_SHOCKS):
+        db[n] = ir.Series(start=start, values=tuple(val(n, k, 0.03125 * (1 + (i + k) % 3)) for k in range(nsim)))
+        db["ant_" + n] = ir.Series(start=start, values=tuple(val("ant_" + n, k, 0.0625) if ("ant_" + n, k) in ant_cells else 0.0 for k in range(nsim)))
+    return db, span
+
+
+def _growth_log_residuals(getl, gets, nsim, checked, expect):
+    """the three equations in logs; getl(name, k) = log of the variable, gets(name, k) = shock (unanticipated + anticipated);
+    expect(term, k) = conditional expectation at k"""
+    p = GROWTH_PAR
+    lg, ls = math.log(p["g"]), math.log(p["s"])
+    out = []
+    for k in checked:
+        out.append((f"teq0@{k}", getl("a", k) - (getl("a", k - 1) + lg + gets("ea", k))))
+        gap = lambda j: getl("y", j) - getl("a", j)
+        out.append((f"teq1@{k}", gap(k) - ((1 - p["rho"] - p["psi"]) * ls + p["rho"] * gap(k - 1) + p["psi"] * expect(gap(k + 1), k) + gets("ey", k))))
+        out.append((f"teq2@{k}", getl("c", k) - (0.6 * getl("y", k) + 0.4 * (getl("c", k - 1) + lg))))
+    return out
+
+
+def _growth_domain(syms, deviation):
+    out = []
+    for n, sy in syms.items():
+        if n.split("__")[0] in GROWTH_VARS:
+            out.append(z3.And(sy.t >= Fraction(1, 2), sy.t <= 4))
+        else:
+            out.append(z3.And(sy.t >= -Fraction(1, 4), sy.t <= Fraction(1, 4)))
+    return out
+
+
+def _growth_log_bounds(terms):
+    """LOG is uninterpreted: give LOG(symbol) the range its symbol's domain [1/2, 4] implies"""
+    seen, out = set(), []
+
+    def walk(t):
+        if t.get_id() in seen:
+            return
+        seen.add(t.get_id())
+        if z3.is_app(t):
+            if t.decl().eq(S.LOG) and z3.is_const(t.arg(0)):
+                out.append(z3.And(t >= -Fraction(7, 10), t <= Fraction(7, 5)))
+            for ch_ in t.children():
+                walk(ch_)
+    for t in terms:
+        walk(t)
+    return out
+
+
+def growth_equations(run, ir, deviation, nsim=4, ant=(("ant_ey", 2), ("ant_ea", 1))):
+    """every equation of the linearised growth model holds (in logs) on the first-order simulation, in levels (around the
+    balanced-growth path) and in deviations; the level simulation equals steady path x deviation simulation of the same inputs"""
+    key = f"equations:growth_loglin:dev={deviation}:nsim={nsim}"
+    finding = "first_order:equations:growth_loglin"
+    ant_cells = set(ant)
+    case = dict(kind="growth", deviation=deviation, nsim=nsim, ant=[list(x) for x in ant])
+    m = _growth_model(ir)
+    db, span = _growth_db(ir, nsim, ant_cells, deviation)
+    rows = set(GROWTH_VARS) | set(GROWTH_SHOCKS) | {"ant_" + s_ for s_ in GROWTH_SHOCKS}
+    ants = {"ant_" + s_ for s_ in GROWTH_SHOCKS}
+    where = lambda nm, k: (nm not in ants) or ((nm, k) in ant_cells)
+    with fo.FirstOrderLift(ir, rows, lift_where=where) as L, S.Path() as path:
+        m.simulate(db, span, method="first_order", deviation=deviation)
+    cap = L.caps[0]
+    names, out = cap["names"], cap["out"]
+    row = {n: i for i, n in enumerate(names)}
+    b0 = cap["base_columns"][0]
+    unant = list(GROWTH_SHOCKS)
+
+    def getl(name, k):
+        t = _cell_term(out[row[name], b0 + k])
+        if t is None:
+            raise KeyError(f"missing cell {name}[{k}]")
+        t = S.mk_log(t)
+        if deviation:
+            t = t + S.rv(S.float_fraction(math.log(_growth_steady(name, k))))
+        return t
+
+    def gets(name, k):
+        return (S.const(out[row[name], b0 + k]) + S.const(out[row["ant_" + name], b0 + k])).t
+    expect = lambda term, k: _expectation(term, k, nsim, unant)
+    checked = list(range(0, nsim - 1))
+    claims = _growth_log_residuals(getl, gets, nsim, checked, expect)
+    syms = cap["syms"]
+    terms = [c for _, c in claims]
+    assume = _growth_domain(syms, deviation) + _growth_log_bounds(terms) + [path.condition()]
+    r0, _ = run.check_sat(assume, timeout_ms=20000)
+    if r0 != "sat":
+        run.unknown(key, f"reachability witness {r0}")
+        return
+    run.reach_ok += 1
+    if not any(not z3.is_rational_value(z3.simplify(c)) for c in terms):
+        run.unknown(key, "no symbolic residual")
+        return
+    viol = z3.Or(*[z3.Or(c > TOL * 10, c < -TOL * 10) for c in terms])
+    r, mdl = run.check_sat(assume + [viol], timeout_ms=120000)
+    if r == "unsat":
+        if len(run.samples) < 12:
+            run.samples.append({"obligation": key, "verdict": "unsat: |log residual| <= 1e-8 for every equation x period, log-variables in [1/2,4], shocks in [-1/4,1/4]",
+                                "example_residual": f"{claims[1][0]}: {str(z3.simplify(claims[1][1]))[:220]}", "claims": len(claims)})
+        run.ok(key)
+    elif r == "sat":
+        big = z3.Or(*[z3.Or(c > Fraction(1, 1000), c < -Fraction(1, 1000)) for c in terms])
+        rb, mb = run.check_sat(assume + [big], timeout_ms=60000)
+        if rb == "sat":
+            mdl = mb
+        vals = model_values(mdl, sorted(syms))
+        run.counterexample(key, finding, "equations of the linearised growth model (in logs) do not hold on the first-order simulation",
+                           dict(case, values={n: [v.numerator, v.denominator] for n, v in vals.items()}))
+    else:
+        run.unknown(key, f"solver {r}")
+
+
+def _growth_replay(ir, case, vals):
+    deviation, nsim = case["deviation"], case["nsim"]
+    ant_cells = {tuple(x) for x in case["ant"]}
+    m = _growth_model(ir)
+    db, span = _growth_db(ir, nsim, ant_cells, deviation, values=vals)
+    o = m.simulate(db, span, method="first_order", deviation=deviation)
+    start = span.start
+
+    def g_(name, k):
+        return float(np.asarray(o[name].get_data(start + k)).reshape(-1)[0])
+
+    def getl(name, k):
+        v = math.log(g_(name, k))
+        return v + (math.log(_growth_steady(name, k)) if deviation else 0.0)
+
+    def gets(name, k):
+        return g_(name, k) + g_("ant_" + name, k)
+    # leads: only period-0 unanticipated shocks may differ from their expectation; the replay zeroes later unanticipated shocks
+    # is not possible here (values come from the solver), so the expectation is taken by re-simulating from period k+1 on without them
+    def expect_factory():
+        cache = {}
+
+        def expect(term_unused, k):
+            if k not in cache:
+                db2 = db.copy()
+                for sname in GROWTH_SHOCKS:
+                    x = db2[sname].copy()
+                    for j in range(k + 1, nsim):
+                        x[start + j] = 0.0
+                    db2[sname] = x
+                o2 = m.simulate(db2, span, method="first_order", deviation=deviation)
+                gg = lambda name, j: math.log(float(np.asarray(o2[name].get_data(start + j)).reshape(-1)[0])) + (math.log(_growth_steady(name, j)) if deviation else 0.0)
+                cache[k] = gg("y", k + 1) - gg("a", k + 1)
+            return cache[k]
+        return expect
+    worst, msg = 0.0, "all equations hold in logs"
+    for labl, r in _growth_log_residuals(getl, gets, nsim, list(range(0, nsim - 1)), expect_factory()):
+        if not abs(r) <= worst:
+            worst, msg = (abs(r) if r == r else float("inf")), f"{labl}: log residual {r!r}"
+    return worst > 1e-6, msg
+
+
+
 def equations_hold(run, ir, zm, deviation, nsim, n_ant):
     key = f"equations:{zm.name}:dev={deviation}:nsim={nsim}:ant={n_ant}"
     finding = f"first_order:equations:{zm.name}"
@@ -500,7 +708,7 @@ def main(run):
     run.assumptions += ["cells are mathematical reals; the float solution matrices enter as the exact rationals they denote",
                         "leads in the period-t equation are the same path's terms with unanticipated shocks dated after t set to zero",
                         "the shock in an equation is the sum of its unanticipated and anticipated (ant_) component"]
-    run.outside += ["that ordqz/schur produce the decomposition (LAPACK)", "models outside the zoo, nonlinear models (see C06)",
+    run.outside += ["that ordqz/schur produce the decomposition (LAPACK)", "models outside the zoo; linearised (non-linear) models other than the exactly log-linear growth model growth_loglin (see C06 for non-linear simulation)",
                     "count of unstable roots: concrete cross-check on the zoo only"]
     models = zoo.zoo() + [MLEAD]
     quick = run.tier == "quick"
@@ -553,6 +761,13 @@ def main(run):
                 non_explosive(run, ir, zm, 40)
             except Exception as exc:
                 run.error(f"contraction:{zm.name}", exc)
+    for deviation in (False, True):
+        try:
+            growth_equations(run, ir, deviation)
+        except S.SymbolicBranchError as exc:
+            run.unknown(f"equations:growth_loglin:dev={deviation}", exc)
+        except Exception as exc:
+            run.error(f"equations:growth_loglin:dev={deviation}", exc)
     try:
         root_predicates(run)
     except Exception as exc:
@@ -566,6 +781,8 @@ def replay(case):
     kind = case["kind"]
     zm = (MLEAD if case.get("model") == "mlead" else zoo.by_name(case["model"])) if "model" in case else None
     vals = {k: float(Fraction(a, b)) for k, (a, b) in case.get("values", {}).items()}
+    if kind == "growth":
+        return _growth_replay(ir, case, vals)
     if kind == "unstable_count":
         m = fo.build_model(ir, zm)
         st = m.get_eigenvalues_stability()
